@@ -13,6 +13,12 @@ def pHolder? (s : String) : Option Holder :=
 def pRefOp? (s : String) : Option RefOp :=
   if s.startsWith "+" then (pHolder? (s.drop 1).toString).map RefOp.acquire
   else if s.startsWith "-" then (pHolder? (s.drop 1).toString).map RefOp.release
+  else if s.startsWith ">" then
+    match (s.drop 1).toString.splitOn ":" with
+    | ["P", c, c'] => match pNat? c, pNat? c' with
+      | some c, some c' => some (RefOp.retarget c c')
+      | _, _ => none
+    | _ => none
   else none
 
 /-- `refs run <ctx->ring map> <ops> => <snapshots>`; a snapshot lists ring counts then context counts, `x` = freed -/
@@ -33,6 +39,8 @@ def checkRefs (args res : List String) : Verdict :=
            let want := ",".intercalate (((List.range nr).map (fun r => if s'.ringCnt r = 0 then "x" else toString (s'.ringCnt r))) ++
                                         ((List.range nc).map (fun c => if s'.ctxCnt c = 0 then "x" else toString (s'.ctxCnt c))))
            if sn = want then go s' os sns (i + 1)
+           else if sn.startsWith "!" then
+             .viol s!"refs-output/{(sn.drop 1).toString}" s!"op {i}: the result written into an external polynomial of another context differs from the result with a fresh output, or does not carry the context of the inputs"
            else .viol "refs-count" s!"after op {i}: counts {sn}, holders imply {want}"
          | _, [] => .skip "missing snapshot"
        go (RefState.init ctxRing) ops snaps 0
